@@ -396,6 +396,15 @@ func checkSwitch(rc *RC, ts *TypedSwitch) {
 				ref = groups[1][0]
 			}
 			for _, f := range g {
+				// an arm written from the ground up differently from its siblings (another statement
+				// skeleton, less than 70% of the lines in common) is a justified asymmetry or a
+				// restructuring this comparison cannot tell from an error (ReadNpy keeps the element
+				// loop for int/uint, which binary.Read rejects): not judged. An arm that keeps the
+				// template and differs in a term, a callee or a dropped branch is reported.
+				if !sameSkeleton(f.text, ref.text) && lineSimilarity(f.text, ref.text) < 0.7 {
+					rc.S.Undec("K1arms", key+":"+f.arm.Label, rc.P.Pos(f.arm.Clause.Pos()), fmt.Sprintf("arm %s no longer follows the template of arm %s (%.0f%% of its lines in common): restructured, not compared", f.arm.Label, ref.arm.Label, 100*lineSimilarity(f.text, ref.text)))
+					continue
+				}
 				rc.S.Viol("K1arms", key+":"+f.arm.Label, rc.P.Pos(f.arm.Clause.Pos()), fmt.Sprintf("arm %s differs from its sibling arm %s after type erasure: %s", f.arm.Label, ref.arm.Label, firstDiff(f.text, ref.text)))
 			}
 		}
